@@ -480,6 +480,10 @@ func master(p *Property, tier string, n int, name func(int) string, only string,
 		"violations":  len(unlisted),
 	}
 	evdir := filepath.Join(verifDir(), "evidence")
+	if noEvid {
+		// debugging / seeded-change runs: keep the committed evidence directory untouched
+		evdir = filepath.Join(verifDir(), ".work", "no-evidence")
+	}
 	if old, _ := filepath.Glob(filepath.Join(evdir, "replays", p.ID+"-*.json")); !noEvid {
 		for _, f := range old {
 			os.Remove(f)
